@@ -333,6 +333,15 @@ Proof.
   - constructor; [|apply IH]. repeat split; auto.
 Qed.
 
+Lemma flip_one c attack i rs cand :
+  v_valid (validate_membership c attack rs cand) = false ->
+  v_valid (validate_membership c attack (flip_at i rs) cand) = false.
+Proof.
+  intros H.
+  destruct (v_valid (validate_membership c attack (flip_at i rs) cand)) eqn:E; [|reflexivity].
+  rewrite (flip_monotone c attack _ _ cand (flip_at_flipped i rs) E) in H. discriminate.
+Qed.
+
 (* ------------------------------------------------------------------ unanimous confirmation *)
 Lemma filter_all {A} (p : A -> bool) l : Forall (fun x => p x = true) l -> filter p l = l.
 Proof. induction 1 as [|x l H _ IH]; cbn [filter]; [reflexivity | rewrite H, IH; reflexivity]. Qed.
@@ -374,8 +383,6 @@ Qed.
 
 (* ------------------------------------------------------------------ collusion heuristic *)
 (* response times pairwise at least the window apart *)
-Definition apart (w a b : N) : Prop := (w <= a - b \/ w <= b - a)%N.
-Definition pairwise_apart (w : N) (l : list N) : Prop := ForallOrdPairs (apart w) l.
 
 Lemma apart_sym w a b : apart w a b -> apart w b a.
 Proof. unfold apart. tauto. Qed.
@@ -491,4 +498,111 @@ Proof.
   - rewrite nv_run_app. cbv zeta in IH. destruct IH as (A & B & C).
     rewrite filter_app. unfold lenN in *. rewrite !app_length. cbn [length filter].
     destruct o; cbn [nv_step nv_conf nv_deny nv_total length]; rewrite ?app_nil_r; cbn [length]; repeat split; lia.
+Qed.
+
+Lemma nv_is_valid_iff ops : nv_is_valid (nv_run ops) = true <-> (nv_total (nv_run ops) < 2 * nv_conf (nv_run ops))%N.
+Proof.
+  destruct (nv_inv ops) as (A & _ & _). unfold nv_is_valid. change NV_MAJORITY_DIV with 2%N.
+  rewrite Bool.andb_true_iff, !N.ltb_lt. lia.
+Qed.
+
+Lemma nv_is_valid_bft_iff f s : nv_is_valid_bft f s = true <-> (2 * f + 1 <= nv_conf s)%N.
+Proof. unfold nv_is_valid_bft, required_confirmations. change MC_CONF_MUL with 2%N. change MC_CONF_ADD with 1%N. apply N.leb_le. Qed.
+
+Lemma nv_sufficient_iff f s : nv_sufficient f s = true <-> (3 * f + 1 <= nv_total s)%N.
+Proof. unfold nv_sufficient, minimum_witnesses. change MC_WIT_MUL with 3%N. change MC_WIT_ADD with 1%N. apply N.leb_le. Qed.
+
+Lemma nv_counters ops f : let s := nv_run ops in
+  (nv_is_valid s = true <-> (nv_total s < 2 * nv_conf s)%N)
+  /\ (nv_is_valid_bft f s = true <-> (2 * f + 1 <= nv_conf s)%N)
+  /\ (nv_sufficient f s = true <-> (3 * f + 1 <= nv_total s)%N)
+  /\ (nv_conf s + nv_deny s <= nv_total s)%N /\ nv_total s = lenN ops.
+Proof.
+  cbv zeta. destruct (nv_inv ops) as (A & B & _).
+  repeat split; try apply nv_is_valid_iff; try apply nv_is_valid_bft_iff; try apply nv_sufficient_iff; assumption.
+Qed.
+
+(* with exactly 3f+1 witnesses recorded, f confirming ones never reach the BFT count, and if all
+   but f confirm the count is reached *)
+Lemma nv_f_liars ops f : let s := nv_run ops in
+  nv_total s = (3 * f + 1)%N ->
+  ((nv_conf s <= f)%N -> nv_is_valid_bft f s = false)
+  /\ ((nv_total s - nv_conf s <= f)%N -> nv_is_valid_bft f s = true /\ nv_is_valid s = true).
+Proof.
+  cbv zeta. intro T. destruct (nv_inv ops) as (A & _ & _). split; intro H.
+  - destruct (nv_is_valid_bft f (nv_run ops)) eqn:E; [|reflexivity]. apply nv_is_valid_bft_iff in E. lia.
+  - split; [apply nv_is_valid_bft_iff | apply nv_is_valid_iff]; lia.
+Qed.
+
+(* combined statements used by Props/C15.v *)
+Lemma bft_quorum_iff c rs cand :
+  v_valid (validate_membership c true rs cand) = true <->
+  ((c_min_peers c <= lenN rs)%N /\ candidate_low c cand = false
+   /\ (c_min_peers c <= lenN (trusted c rs))%N /\ (0 < lenN (trusted c rs))%N
+   /\ c_thr_bft c * QofN (lenN (trusted c rs)) <= QofN (confirmations (trusted c rs))
+   /\ (c_min_regions c <= count_confirming_regions rs)%N
+   /\ detect_collusion (map r_latency (trusted c rs)) = false).
+Proof. rewrite valid_bft_spec. apply bft_accept_spec_iff. Qed.
+
+Lemma weighted_iff c rs cand :
+  v_valid (validate_membership c false rs cand) = true <->
+  ((c_min_peers c <= lenN rs)%N /\ candidate_low c cand = false
+   /\ let tw := sumQ (map weight_of rs) in
+      let cw := sumQ (map weight_of (filter r_confirms rs)) in
+      (0 < tw /\ c_thr_weighted c * tw <= cw) \/ (tw <= 0 /\ c_thr_weighted c <= 0)).
+Proof. rewrite valid_weighted_spec. apply weighted_accept_spec_iff. Qed.
+
+Lemma minority_rejected c rs cand :
+  (1 # 3) <= c_thr_bft c ->
+  (3 * confirmations (trusted c rs) < lenN (trusted c rs))%N ->
+  v_valid (validate_membership c true rs cand) = false.
+Proof. intros. rewrite valid_bft_spec. apply bft_minority_rejected; assumption. Qed.
+
+Lemma default_thr_third : (1 # 3) <= CG_THR_BFT.
+Proof. unfold CG_THR_BFT, Qle. cbn. lia. Qed.
+
+Lemma f_liars_rejected_default c rs cand f :
+  c_thr_bft c == CG_THR_BFT ->
+  lenN (trusted c rs) = (3 * f + 1)%N ->
+  (confirmations (trusted c rs) <= f)%N ->
+  v_valid (validate_membership c true rs cand) = false.
+Proof. intros E. apply f_liars_rejected. rewrite E. apply default_thr_third. Qed.
+
+(* from_maintenance_config: with exactly 3f+1 trusted answers the ratio test is "at least 2f+1 confirm" *)
+Lemma maintenance_quorum f rs cand : let c := cfg_from_maintenance f in
+  lenN (trusted c rs) = (3 * f + 1)%N ->
+  v_valid (validate_membership c true rs cand) = true -> (2 * f + 1 <= confirmations (trusted c rs))%N.
+Proof.
+  cbv zeta. intros Hn V. apply bft_quorum_iff in V. destruct V as (_ & _ & _ & _ & Hq & _).
+  rewrite Hn in Hq. cbn [c_thr_bft cfg_from_maintenance] in Hq.
+  unfold required_confirmations, minimum_witnesses in Hq.
+  change MC_CONF_MUL with 2%N in Hq. change MC_CONF_ADD with 1%N in Hq.
+  change MC_WIT_MUL with 3%N in Hq. change MC_WIT_ADD with 1%N in Hq.
+  assert (P : 0 < QofN (3 * f + 1)) by (apply QofN_pos; lia).
+  assert (E : QofN (2 * f + 1) / QofN (3 * f + 1) * QofN (3 * f + 1) == QofN (2 * f + 1)).
+  { field. intro Z. rewrite Z in P. discriminate. }
+  rewrite E in Hq. apply QofN_le in Hq. exact Hq.
+Qed.
+
+(* raw (unclamped) weights: the reason for the clamp in weight_of *)
+
+Lemma raw_weights_not_monotone :
+  exists rs' rs, flipped rs' rs /\ weighted_accept_raw cfg_default rs' None = true
+                 /\ weighted_accept_raw cfg_default rs None = false.
+Proof.
+  pose (w := fun (b : bool) (t : Z) => mkResp b (Some (t # 4)) None 0).
+  exists [w false (-2)%Z; w true 3%Z; w true 3%Z; w false 1%Z; w false 1%Z],
+         [w true (-2)%Z; w true 3%Z; w true 3%Z; w false 1%Z; w false 1%Z].
+  split; [|split; vm_compute; reflexivity].
+  constructor; [repeat split; cbn; discriminate|].
+  repeat (constructor; [repeat split; auto|]). constructor.
+Qed.
+
+Lemma enforcement c attack rs cand :
+  let v := v_valid (validate_membership c attack rs cand) in
+  (c_strict c = true -> validate_cached c (Some v) = v)
+  /\ (c_strict c = false -> validate_cached c (Some v) = true)
+  /\ validate_cached c None = negb (c_strict c).
+Proof.
+  cbv zeta. split; [apply validate_cached_strict | split; [apply validate_cached_logonly | reflexivity]].
 Qed.
